@@ -97,19 +97,23 @@ TraverseCfgs(x) == {TraverseCfg(len, FALSE, rot) : len \in 0..MaxLen, rot \in Ro
 
 \* ---- parameter naming variants (C15, ToError) ------------------------------
 \* per parameter: "n" an ordinary name, "b" the blank identifier, names the templates use themselves
-\* ("f" the function, "e" = err the error, "p" a name with the prefix the blank-renaming mints);
-\* or no names at all.  At most one template name, at most two blanks per signature.
-Special == {"f", "e", "p"}
+\* ("f" the function, "e" = err the error), and user names that EQUAL a name the blank-renaming mints:
+\* "p" = the name minted for the nearest LATER blank parameter (param_<its index>; for uncurry innerParam_<..> when that
+\*       blank is a parameter of the returned function), or a merely prefixed name (param_7) when no blank follows;
+\* "q" = the name minted for the nearest EARLIER blank parameter;
+\* or no names at all.  At most one such special name, at most two blanks per signature.
+Special == {"f", "e", "p", "q"}
 NameVecs(n, letters) ==
   {v \in [1..n -> letters] :
        /\ Cardinality({i \in 1..n : v[i] \in Special}) <= 1
        /\ Cardinality({i \in 1..n : v[i] = "b"}) <= 2
-       /\ (\E i \in 1..n : v[i] = "b") => ~(\E i \in 1..n : v[i] \in {"f", "e"})}
+       /\ (\E i \in 1..n : v[i] = "b") => ~(\E i \in 1..n : v[i] \in {"f", "e"})
+       /\ \A i \in 1..n : v[i] = "q" => \E j \in 1..(i-1) : v[j] = "b"}
 Namings(n, letters) ==
   IF n = 0 THEN {[style |-> "named", v |-> <<>>]}
   ELSE {[style |-> "named", v |-> v] : v \in NameVecs(n, letters)} \cup {[style |-> "unnamed", v |-> [i \in 1..n |-> "u"]]}
-PlumbLetters   == {"n", "b", "f", "p"}
-ToErrorLetters == {"n", "b", "f", "p", "e"}
+PlumbLetters   == {"n", "b", "f", "p", "q"}
+ToErrorLetters == {"n", "b", "f", "p", "q", "e"}
 
 \* ---- C16 toerror: deriveToError(err, f func(P...) (R..., bool)) ----------
 ToErrorCfg(p, r, rot, naming) ==
